@@ -380,6 +380,23 @@ def shared_radio_rules(ctx):
     stop = fact_key('%s[1] == _RadioCommands.STOP' % c)
     ok = all(norm(t.slice) == '%s[0]' % c and stop in g.fact_keys_at(n) for n, t in dels) and len(dels) == 1
     ctx.inst('R11', run, 'unregister-only-own-id-on-stop', ok, 'a queue is unregistered only by the STOP command of its own id')
+    # the table of users and the dongle are one state under one lock: the last user's release of the dongle happens inside the same
+    # `with self._lock` as its unregistration (outside it, a new user can register between the two steps and gets a dongle that is
+    # being closed: its packets are accepted and never transmitted)
+    withs = [w for w in walk_own(run.node) if isinstance(w, ast.With) and any(norm(i.context_expr) == 'self._lock' for i in w.items)]
+    locked = {id(x) for w in withs for s_ in w.body for x in walk_own(s_)}
+    rel = [x for x in walk_own(run.node) if (isinstance(x, ast.Call) and method_call(x, 'close') and norm(x.func.value) == 'self._radio') or
+           (isinstance(x, ast.Assign) and norm(x.targets[0]) == 'self._radio')]
+    ctx.inst('R11', run, 'dongle-released-under-the-registry-lock', bool(rel) and all(id(x) in locked for x in rel) and all(id(t) in locked for n, t in dels),
+             'unregistering the last user and closing the dongle are one critical section (with self._lock)')
+    # a link stops its own radio thread before it gives the shared dongle back: a loop iteration after the release would use a closed
+    # instance and report a link error that no lost packet caused
+    clz = m.cls(RD, 'RadioDriver').method('close')
+    gcz = cfg_of(clz)
+    stp = gcz.find(lambda q: method_call(q, 'stop') and norm(q.func.value) == 'self._thread')
+    rls = gcz.find(lambda q: method_call(q, 'close') and norm(q.func.value) == 'self._radio')
+    ctx.inst('R7', clz, 'thread-stopped-before-dongle-released', len(stp) == 1 and len(rls) == 1 and gcz.dominates(stp[0][0], rls[0][0]),
+             'RadioDriver.close stops (joins) the radio thread on every path before it closes its radio instance')
 
 
 VARIANTS = [
